@@ -1792,7 +1792,7 @@ class SQLParser:
         is_auto_increment: bool = False
         default: Optional[node.ASTExpressionBase] = None
         on_update: Optional[node.ASTExpressionBase] = None
-        while not scanner.is_finish:
+        while not scanner.is_finish and not scanner.search_one_type_str(";"):
             if scanner.search_and_move_two_type_str_use_upper("NOT", "NULL"):
                 is_not_null = True
             elif scanner.search_and_move_one_type_str_use_upper("NULL"):
